@@ -79,8 +79,8 @@ ASSUMPTIONS = [
 ]
 
 FLOORS = {
-    'quick': {'states': 6, 'transitions': 4000, 'validated': 2000, 'outcomes': 3, 'set:symbols_executed': 46, 'set:fault_types': 6, 'set:faults': 15},
-    'thorough': {'states': 6, 'transitions': 250000, 'validated': 90000, 'outcomes': 3, 'set:symbols_executed': 46, 'set:fault_types': 6, 'set:faults': 15},
+    'quick': {'states': 6, 'transitions': 4000, 'validated': 2000, 'outcomes': 3, 'set:symbols_executed': 47, 'set:fault_types': 6, 'set:faults': 15},
+    'thorough': {'states': 6, 'transitions': 250000, 'validated': 90000, 'outcomes': 3, 'set:symbols_executed': 47, 'set:fault_types': 6, 'set:faults': 15},
 }
 
 WD = 10  # seconds per library call
@@ -195,6 +195,7 @@ def gvec():
         'log.target': 'harness' if log._log is guard._LOGGER else repr(log._log),
         'ser': 'initial' if ser is guard._PRISTINE['ser'] else 'other:' + type(ser).__name__,
         'prefs': sorted((k, repr(v)) for k, v in vars(ser.prefs).items()),
+        'ser.transient': sorted((k, len(v) if isinstance(v, (list, tuple, dict, set)) else repr(v)) for k, v in vars(ser).items() if k != 'prefs'),
         'profile.object': 'initial' if prof is guard._PRISTINE['profile'] else 'other',
         'profile.names': list(prof.profiles),
         'profile.default': repr(prof._defaultProfiles),
@@ -408,6 +409,26 @@ def _ser_prefs(cx):
         vars(prefs).clear()
         vars(prefs).update(old)
     return [a, b, s.cssText]
+
+
+SPEC_TEXT = 'a{top:0} a b{top:1px} b{left:0}'
+
+
+@sym(
+    'serialize(indentSpecificities-restored)',
+    "cssutils.ser.prefs.indentSpecificities = True\n"
+    f"print(cssutils.parseString({SPEC_TEXT!r}).cssText.decode())\ncssutils.ser.prefs.indentSpecificities = False",
+)
+def _ser_spec(cx):
+    prefs = cssutils.ser.prefs
+    old = prefs.indentSpecificities
+    prefs.indentSpecificities = True  # a documented (experimental) preference, set explicitly ...
+    try:
+        cx.mark()
+        s = cx.parse('serialize(indentSpecificities-restored)', lambda: cssutils.parseString(SPEC_TEXT))
+        return [s.cssText, s.cssRules[1].cssText]
+    finally:
+        prefs.indentSpecificities = old  # ... and set back
 
 
 @sym('setSerializer+restore')
@@ -736,37 +757,23 @@ def save_ref(vfs, R):
 # judging one history
 
 
-def _minimise(hist, keep_last, pred, vfs):
-    """1-minimal sub-history (fixed order, deterministic) on which pred(run, sub-history) still holds; the last call is kept
-    if keep_last.  One-step counterfactuals: a call stays only if removing it makes the violation of *this probe* disappear
-    (every sub-history is enumerated and judged on its own as well, so nothing is masked by the reduction)."""
-    hist = list(hist)
-    changed = True
-    while changed:
-        changed = False
-        n = len(hist) - (1 if keep_last else 0)
-        for i in range(n):
-            h2 = hist[:i] + hist[i + 1:]
-            if pred(execute(h2, vfs), h2):
-                hist = h2
-                changed = True
-                break
-    return hist
+def _is_minimal(hist, keep_last, pred, vfs):
+    """one-step counterfactuals: True iff removing any single call (but the last if keep_last) makes the violation of *this
+    probe* disappear.  A violation is reported on its 1-minimal histories only: every sub-history is itself enumerated and judged,
+    so nothing is lost, and the witness (and with it the signature) never depends on incidental calls of a longer history."""
+    n = len(hist) - (1 if keep_last else 0)
+    for i in range(n):
+        h2 = hist[:i] + hist[i + 1:]
+        if pred(execute(h2, vfs), h2):
+            return False
+    return True
 
 
-def _leak_sig(min_hist_names, leaked, probe):
-    after = ' + '.join(min_hist_names) if min_hist_names else '(nothing)'
+def _leak_sig(names, leaked, probe):
+    after = ' + '.join(names) if names else '(nothing)'
     if leaked:
         return f'after={after}|leaked={",".join(leaked)}'
     return f'after={after}|leaked=none-of-G|probe={probe}'
-
-
-def _leaked_after(hist, vfs, R):
-    """components of G that differ from what the explicit settings of `hist` account for, at the end of `hist`"""
-    if not hist:
-        return []
-    r = execute(hist, vfs, with_battery=False)
-    return _gdiff(R.g(env_after(hist)), r.gs[-1])
 
 
 def judge(res, hist, vfs, R, record_sample=False):
@@ -781,6 +788,7 @@ def judge(res, hist, vfs, R, record_sample=False):
     nontrivial = False
     for g in run.marks:
         res.sets['G'].add(h64(g))
+    last = len(hist) - 1
     for pos, si in enumerate(hist):
         res.transitions += 1
         out = run.outs[pos]
@@ -811,26 +819,27 @@ def judge(res, hist, vfs, R, record_sample=False):
                     {k: before[k] for k in changed}, {k: after[k] for k in changed},
                     note=f'parse call {label} {how}; value at the start of the call vs. after it',
                 )
-        # (ii a) the call's own outcome is the outcome it has in a clean process under the same explicit settings
+        # (ii a) the call's own outcome is the outcome it has alone in a clean process under the same explicit settings
         res.clauses['C12.probe.call'] += 1
-        if out != R.call(env_after(hist[:pos]), si):
-            def pred(r2, h2, si=si):
-                return r2.outs[-1] != R.call(env_after(h2[:-1]), si)
+        env_before = env_after(hist[:pos])
+        if out != R.call(env_before, si):
+            res.counters['call_outcomes_differing'] += 1
+            if pos == last:  # (for pos < last this very comparison is the last one of the enumerated history hist[:pos+1])
+                def pred(r2, h2, si=si):
+                    return r2.outs[-1] != R.call(env_after(h2[:-1]), si)
 
-            mh = _minimise(hist[:pos + 1], True, pred, vfs)
-            mn = [NAMES[i] for i in mh]
-            res.violation(
-                'C12.probe', _leak_sig(mn[:-1], _leaked_after(mh[:-1], vfs, R), 'call:' + NAMES[si]), {'history': mn},
-                R.call(env_after(mh[:-1]), si), out,
-                note=f'outcome of {NAMES[si]} differs from its outcome in a clean process; first seen in history {names[:pos + 1]}',
-            )
+                if _is_minimal(hist, True, pred, vfs):
+                    leaked = _gdiff(R.g(env_before), run.gs[pos - 1]) if pos else []
+                    res.violation(
+                        'C12.probe', _leak_sig(names[:-1], leaked, 'call:' + NAMES[si]), {'history': names}, R.call(env_before, si), out,
+                        note=f'outcome of {NAMES[si]} differs from its outcome alone in a clean process',
+                    )
     env = env_after(hist)
-    if run.gs:
-        d = _gdiff(R.g(env), run.gs[-1])
-        for k in d:
-            res.counters['g_residue:' + k] += 1
-        if d:
-            nontrivial = True
+    leaked = _gdiff(R.g(env), run.gs[-1]) if run.gs else []
+    for k in leaked:
+        res.counters['g_residue:' + k] += 1
+    if leaked:
+        nontrivial = True
     if nontrivial:
         res.nontrivial += 1
     # (ii b) probe battery
@@ -840,18 +849,17 @@ def judge(res, hist, vfs, R, record_sample=False):
     res.outcomes.add(h64(run.gs[-1]) if run.gs else 0)
     diff = [name for name, _ in PROBES if run.battery[name] != R.bat(env)[name]]
     if diff:
+        res.counters['batteries_differing'] += 1
         first = diff[0]
-        target = run.battery[first]
 
         def pred_b(r2, h2):
             return r2.battery[first] != R.bat(env_after(h2))[first]
 
-        mh = _minimise(hist, False, pred_b, vfs)
-        mn = [NAMES[i] for i in mh]
-        res.violation(
-            'C12.probe', _leak_sig(mn, _leaked_after(mh, vfs, R), first), {'history': mn}, {first: R.bat(env_after(mh))[first]}, {first: target},
-            note=f'probes differing from the recording of a clean process: {diff}; first seen after history {names}',
-        )
+        if _is_minimal(hist, False, pred_b, vfs):
+            res.violation(
+                'C12.probe', _leak_sig(names, leaked, first), {'history': names}, {first: R.bat(env)[first]}, {first: run.battery[first]},
+                note=f'probes differing from the recording of a clean process: {diff}',
+            )
     for name in MUST_RAISE:
         if run.battery[name][0] != 'exc':
             res.counters['must_raise_did_not'] += 1
@@ -862,18 +870,17 @@ def judge(res, hist, vfs, R, record_sample=False):
     res.clauses['C12.reuse'] += 1
     rdiff = [k for k in R.reu(env) if run.reuse[k] != R.reu(env)[k]]
     if rdiff:
-        first = rdiff[0]
-        target = run.reuse[first]
+        res.counters['reuse_results_differing'] += 1
+        first_r = rdiff[0]
 
         def pred_r(r2, h2):
-            return r2.reuse[first] != R.reu(env_after(h2))[first]
+            return r2.reuse[first_r] != R.reu(env_after(h2))[first_r]
 
-        mh = _minimise(hist, False, pred_r, vfs)
-        mn = [NAMES[i] for i in mh]
-        res.violation(
-            'C12.reuse', _leak_sig(mn, _leaked_after(mh, vfs, R), first), {'history': mn}, {first: R.reu(env_after(mh))[first]}, {first: target},
-            note=f'reuse results differing from the recording of a clean process: {rdiff}; first seen after history {names}',
-        )
+        if _is_minimal(hist, False, pred_r, vfs):
+            res.violation(
+                'C12.reuse', _leak_sig(names, leaked, first_r), {'history': names}, {first_r: R.reu(env)[first_r]}, {first_r: run.reuse[first_r]},
+                note=f'reuse results differing from the recording of a clean process: {rdiff}',
+            )
     if record_sample:
         res.sample({'history': names})
     return run
@@ -900,7 +907,7 @@ def _self_consistency(res, R):
 # framework interface
 
 DEPTH = {'quick': 2, 'thorough': 3}
-G_KEYS = ['MACROS', 'PRODUCTIONS', 'log.enabled', 'log.target', 'prefs', 'profile.default', 'profile.names', 'profile.object', 'profile.verdicts',
+G_KEYS = ['MACROS', 'PRODUCTIONS', 'log.enabled', 'log.target', 'prefs', 'ser.transient', 'profile.default', 'profile.names', 'profile.object', 'profile.verdicts',
           'pushed', 'raiseExceptions', 'savedTokens', 'ser', 'tokenizer_cache']
 
 
